@@ -3,7 +3,7 @@
    list is mapped back to index-rectangles of the model's grid and must pass the verified
    checker is_cover; equality with the model's own greedy cover is NOT required. *)
 From FrameModel Require Import Num.QcTac Geometry.Rect Cases.Cmp
-  Die.Boundaries Die.Cells Die.Cover Die.DieModel Die.DieInput.
+  Die.Boundaries Die.Cells Die.Cover Die.DieModel Die.DieInput Die.DieInputFacts.
 From Coq Require Import Ascii String.
 Open Scope Qc_scope.
 
@@ -167,4 +167,22 @@ Lemma agree_accept_in_resolved files loads eps aeps deps tin i fx G S B Fx :
 Proof.
   unfold agree_accept_in, desc_of. destruct (resolve _ _ i) as [t| | |]; try discriminate.
   intro H. exists t. split; [reflexivity | exact H].
+Qed.
+
+(* ---- the same objects handed to several constructions (DieInput.session): [seen] is what the model says
+   each construction receives, [chks] the comparison of each observed outcome on what it received ---- *)
+Fixpoint agree_steps (seen : list (die_input * list Rect)) (chks : list (die_input -> list Rect -> bool)) : bool :=
+  match seen, chks with
+  | [], [] => true
+  | (i, fx) :: s, c :: cs => c i fx && agree_steps s cs
+  | _, _ => false
+  end.
+
+Lemma agree_steps_sound o steps chks :
+  agree_steps (session (fun i fx => (i, fx)) o steps) chks = true ->
+  Forall2 (fun (b : bool) (chk : die_input -> list Rect -> bool) => chk (o_desc o) (call_fixed o b) = true) steps chks.
+Proof.
+  rewrite session_fresh. revert chks. induction steps as [|b rest IH]; intros chks H; destruct chks as [|c cs]; cbn in H; try discriminate.
+  - constructor.
+  - apply andb_true_iff in H. destruct H as [H1 H2]. constructor; [exact H1 | apply IH; exact H2].
 Qed.
